@@ -11,6 +11,10 @@ import (
 // killer looks like to its peers.
 var AllocLimit uint64 = 256 << 20
 
+// AllocPeak is the largest single request granted since it was last reset
+// (worlds size the simulated machine from what a clean session needs).
+var AllocPeak uint64
+
 // AllocTooLarge is the panic value of a refused allocation.
 type AllocTooLarge struct {
 	Bytes uint64
@@ -36,6 +40,9 @@ func MakeSlice[S ~[]E, E any](n int, m ...int) S {
 		if uint64(c) > AllocLimit/sz {
 			Reach("alloc.refused")
 			panic(AllocTooLarge{Bytes: uint64(c) * sz})
+		}
+		if b := uint64(c) * sz; b > AllocPeak {
+			AllocPeak = b
 		}
 	}
 	if len(m) > 0 {
